@@ -112,6 +112,19 @@ def enums():
     return b.SuitSignAlgorithms, b.SignatureAlreadyPresentActions
 
 
+CONTEXT_FORM = {"form": "path"}  # how the key directory is named to the KMS: "path" | "json-absolute" | "json-relative" (relative to the working directory)
+
+
+def _context(d):
+    import json
+    f = CONTEXT_FORM["form"]
+    if f == "json-absolute":
+        return json.dumps({"keys_directory": d})
+    if f == "json-relative":
+        return json.dumps({"keys_directory": os.path.relpath(d, os.getcwd())})
+    return d
+
+
 def single_level(repo, d, env_bytes, key_name, key_id, alg, action="error"):
     from pathlib import Path
     A, ACT = enums()
@@ -121,7 +134,7 @@ def single_level(repo, d, env_bytes, key_name, key_id, alg, action="error"):
     if os.path.exists(out):
         os.unlink(out)
     cmd_sign().main(sign_subcommand="single-level", input_envelope=Path(inp), output_envelope=Path(out), key_name=key_name, key_id=key_id,
-                    alg=A(alg), context=d, sign_script=f"{repo}/ncs/sign_script.py", kms_script=f"{repo}/ncs/basic_kms.py",
+                    alg=A(alg), context=_context(d), sign_script=f"{repo}/ncs/sign_script.py", kms_script=f"{repo}/ncs/basic_kms.py",
                     already_signed_action=ACT(action))
     with open(out, "rb") as fh:
         return fh.read()
